@@ -17,7 +17,7 @@ func init() {
 			"(only-known) a peer entry is written only on the found-edge of the lookup of that peer's node record; (own-lastseen) the stored timestamp is that peer record's LastSeen; " +
 			"(evict-predicate) an entry is removed exactly under timestamp <= now - ExpireInterval with now the value written to the node's LastSeen, ExpireInterval = 2*KeepaliveInterval, and removed <=> appended to the returned inactive list; " +
 			"(persisted) every success path stores the node record (and, in the persistent driver, the peer set) once; " +
-			"(reply-wiring) InvalidPeers derives from the returned inactive list only, ActivePeers from the NodePeers result read after the update. Round 2: the reported peer id reaches the registered-node lookup verbatim (no string transformation outside the repository's own conversions).",
+			"(reply-wiring) InvalidPeers derives from the returned inactive list only, ActivePeers from the NodePeers result read after the update. Round 2: the reported peer id reaches the registered-node lookup verbatim (no string transformation outside the repository's own conversions). Round 4 (refresh): in the loop over the reported peers every iteration passes the lookup of the peer's record (failed parse/read edges excepted) and every found record's LastSeen is written to the tracked set before the next iteration.",
 		NotDecided: []string{"not decided: the history-level 'exactly if' statement over arbitrary keep-alive histories; behaviour at the boundary instant"},
 	}
 }
